@@ -175,7 +175,10 @@ def rule_m2345(prog: Program, col: Collector) -> None:
             elif inner_it[0] == "comp":
                 el, it2, cd = inner_it[3][0]
                 ok_in = len(cd) == 1 and cd[0] in (("bin", "&", el, singleton), ("cmp", "in", singleton, el)) and is_call_to(it2, P + "coalitions.all_coalitions")
-            oks = ok_sv and ok_in and c == loops[1][2]
+            # the singleton's value must be read once per player, BEFORE the inner loop rewrites the singleton's own row
+            reads = [x for x in nft.calls("get_value") if x.recv == ngp and x.args == (singleton,)]
+            read_outside = bool(reads) and all(not any(f[0] == "for" and f[1] == loops[1][1] for f in x.ctx) for x in reads)
+            oks = ok_sv and ok_in and c == loops[1][2] and read_outside
     col.check(oks, nref.where(subs[0].node if subs else None), nref.short,
               "for every player: v(c) -= v({player}) for every coalition c containing the player (the singleton's value read before its own row is rewritten)",
               construct="normalise-subtract", necessity="every singleton must become 0 and every coalition lose exactly its members' singleton values")
